@@ -208,7 +208,10 @@ def handle : List String → String
     | some (.arr xs) =>
       match newPlan 200 xs with
       | none => "nil"
-      | some a => if a.hasUnk 200 then "unmodelled" else renderTree 400 (simplify 200 a)
+      | some a =>
+        if a.hasUnk 200 then "unmodelled"
+        else if !pathsRoundTrip 201 a then "paths-do-not-round-trip"
+        else renderTree 400 (simplify 201 a)
     | _ => "bad-op"
   | ["spec", fnS, devS, argsS] =>
     match ofHex fnS, readDev devS, readTree argsS with
